@@ -142,7 +142,7 @@ BUNested(z) == {[f |-> c.f, v |-> c.v, op |-> "none", at |-> a] :
 \* ------------------------------------------------------------ LD: Loader behaviours
 LDCases(z) ==
   {[beh |-> b, res |-> r] : <<b, r>> \in
-     {<<"error", "err">>, <<"nil", "err">>, <<"wrong-doc", "err">>, <<"root-itself", "any">>, <<"same-object-two-uris", "any">>,
+     {<<"nil-root", "err">>, <<"error", "err">>, <<"nil", "err">>, <<"wrong-doc", "err">>, <<"root-itself", "any">>, <<"same-object-two-uris", "any">>,
       <<"self-loop", "ok">>, <<"mutual", "ok">>, <<"chain-6", "ok">>, <<"chain-then-error", "err">>, <<"doc-with-bad-ref", "err">>,
       <<"doc-nil-child", "err">>, <<"doc-not-tree", "err">>, <<"loader-panics-never", "ok">>, <<"no-loader", "err">>,
       <<"in-place-ref-cycle-ok", "ok">>}}
